@@ -9,7 +9,7 @@
       model for the generated early-exit programs.) *)
 From KV Require Import Base.Prelude Model.ArrayMacros Model.Ledger Spec.ArrayMacros
   Proofs.ArrayMacrosProofs Proofs.LedgerProofs.
-From KV Require Import Model.Dsl Spec.Dsl Proofs.CollectDslProofs.
+From KV Require Import Model.Dsl Spec.Dsl Proofs.CollectDslProofs Proofs.ArrayLenProofs.
 Local Open Scope nat_scope.
 
 (** array::map!: for EVERY closure behaviour (per-evaluation outcomes value / break /
@@ -75,6 +75,19 @@ Theorem C11_from_fn_eq_std : forall (B : Type) fuel (clo : nat -> nat -> ArrayMa
   (forall k i, clo k i = Value (g k i)) -> N <= fuel ->
   array_from_fn_m fuel clo N = Built (map Some (std_from_fn g N)).
 Proof. exact @from_fn_eq_std. Qed.
+
+(** finding F10 (repaired by a fix: commit): array::map! / from_fn! took their loop bound from the
+    METHOD call [$array.len()], which a user trait with a [len] method implemented for arrays
+    hijacks.  With the array's real length (what the repaired macro reads off the array's type)
+    the loop is the model the theorems above are about; with a [len] that reports 0 it returned an
+    array none of whose slots was written *)
+Theorem C11_array_map_len_real : forall (A B : Type) fuel (clo : nat -> A -> ArrayMacros.outcome B) input,
+  array_map_len_m (length input) fuel clo input = array_map_m fuel clo input.
+Proof. exact @array_map_len_real. Qed.
+Theorem C11_array_map_len_hijack_refuted :
+  array_map_len_m 0 5 (fun _ (x : Z) => Value (x + 1)%Z) [1; 2; 3]%Z = Built [None; None; None]
+  /\ ~ fully_init (@nil (option Z) ++ [None; None; None]).
+Proof. exact array_map_len_hijack_refuted. Qed.
 
 (** collect_const!: a Built result has every slot written by the second pass's items and
     both passes counted the same; a deterministic chain gives exactly std's collect; passes
@@ -191,3 +204,5 @@ Print Assumptions C11_map_value_eq_std_satisfiable.
 Print Assumptions C11_collect_const_dsl_built.
 Print Assumptions C11_collect_const_dsl_eq_std.
 Print Assumptions C11_collect_const_dsl_eq_std_forward.
+Print Assumptions C11_array_map_len_real.
+Print Assumptions C11_array_map_len_hijack_refuted.
